@@ -11,6 +11,12 @@ cdiff = os.path.join(src, "mutant_%s.c.diff" % V)
 if os.path.exists(cdiff) and os.path.getsize(cdiff) > 0:
     # the mutant (also) patches a generated C file (no Cython in the sandbox): apply with `patch -p0` from the repo root, see tools/eval_cmutant.py
     shutil.copy(cdiff, os.path.join(dst, "patch.c.diff"))
+# helper modules the demos import (anything else in MUTANTS/ that is a .py and not a demo / rebuild script)
+import glob
+for f in glob.glob(os.path.join(src, "*.py")):
+    b = os.path.basename(f)
+    if not b.startswith("demo_") and b != "rebuild.py":
+        shutil.copy(f, os.path.join(dst, b))
 readme = open(os.path.join(src, "README.md")).read()
 open(os.path.join(dst, "agent_README.md"), "w").write(readme)
 json.dump({"property": P, "variant": V, "needs_to_manifest": needs, "detected_by_check": caught == "yes", "what_was_run": ran,
